@@ -4,7 +4,8 @@ import SlipVerif.Driver.Util
 /- line protocol for C19:  lf <entry> <token>*
    term (prefix, one token per constructor):
      N | T | i:<dec> | r:<num>/<den> | f:<fmt>:<hexbits> | s:<hex-utf8> | c:<code> | y:<hex-utf8>
-     | C <term> <term> | V <term> | A <term> <term> | H <term>
+     | C <term> <term> | Vt <term> | Vn <term> | At <term> <term> | An <term> <term> | H <term>
+       (Vt/At: adjustable, Vn/An: not adjustable)
    entries:
      form <term>       -> ok <term>              the load form
      eval <term>       -> ok <term> | err <class>  evaluate a construction form
@@ -46,13 +47,13 @@ def parse : Nat → List String → Option (Obj × List String)
       let (a, r1) ← parse fuel rest
       let (d, r2) ← parse fuel r1
       some (.cons a d, r2)
-    else if tok = "V" then do
+    else if tok = "Vt" ∨ tok = "Vn" then do
       let (a, r1) ← parse fuel rest
-      some (.vec a, r1)
-    else if tok = "A" then do
+      some (.vec (tok = "Vt") a, r1)
+    else if tok = "At" ∨ tok = "An" then do
       let (a, r1) ← parse fuel rest
       let (d, r2) ← parse fuel r1
-      some (.arr a d, r2)
+      some (.arr (tok = "At") a d, r2)
     else if tok = "H" then do
       let (a, r1) ← parse fuel rest
       some (.hash a, r1)
@@ -73,8 +74,8 @@ def showTerm : Obj → String
   | .chr c => s!"c:{c}"
   | .sym s => "y:" ++ hexString s
   | .cons a d => "C " ++ showTerm a ++ " " ++ showTerm d
-  | .vec e => "V " ++ showTerm e
-  | .arr a d => "A " ++ showTerm a ++ " " ++ showTerm d
+  | .vec adj e => (if adj then "Vt " else "Vn ") ++ showTerm e
+  | .arr adj a d => (if adj then "At " else "An ") ++ showTerm a ++ " " ++ showTerm d
   | .hash e => "H " ++ showTerm e
 
 def showErr : Err → String
